@@ -48,6 +48,8 @@ struct Menu {
     /// (quorum, expected version index)
     cfgs: Vec<(Quorum, Option<usize>)>,
     mergeable: bool,
+    /// callers pass `is_register: true`: the expected value is compared as a register (base and operation set)
+    is_register: bool,
 }
 
 fn quorum_value(q: &Quorum) -> usize {
@@ -113,7 +115,7 @@ impl Sys {
     }
     fn cfg_of(&self, idx: usize) -> GetRecordCfg {
         let (q, exp) = &self.menu.cfgs[idx];
-        GetRecordCfg { get_quorum: *q, retry_strategy: None, target_record: exp.map(|v| self.menu.versions[v].clone()), expected_holders: Default::default(), is_register: false }
+        GetRecordCfg { get_quorum: *q, retry_strategy: None, target_record: exp.map(|v| self.menu.versions[v].clone()), expected_holders: Default::default(), is_register: self.menu.is_register }
     }
     fn poll_callers(&mut self) {
         for (_, st) in self.callers.iter_mut() {
@@ -569,6 +571,279 @@ fn run_layer3(run: &Run) {
     run.extra("layer3_executions", json!(total));
 }
 
+/// layer 4: the retry loop of the real `Network::get_record_from_network`. The harness is the layer below (it owns the
+/// command channel and answers every `GetNetworkRecord` itself) and the clock (paused; the back-off sleeps end when the
+/// harness moves it). Every sequence of per-attempt answers over a menu of 8 (two agreed values, the four plain errors —
+/// two of which *carry a record* fewer than Q peers agreed on —, a mergeable and an unmergeable split) x retry strategy
+/// {None, N(2), Quick}; then two overlapping callers (told apart by their quorum) with every interleaving of the answers.
+/// A value may only come from an attempt that was answered with that value (or the merge of a mergeable split); nothing is
+/// asked again after a success; the call ends after at most `attempts` queries with one outcome; a failure names an error
+/// that was really answered.
+#[derive(Clone, Copy, Debug, PartialEq, Eq, PartialOrd, Ord)]
+enum Ans {
+    OkA,
+    OkB,
+    SplitMergeable,
+    NotEnoughCopiesA,
+    NotFound,
+    Timeout,
+    DoesNotMatchA,
+    SplitOpaque,
+}
+const ANSWERS: [Ans; 8] = [Ans::OkA, Ans::OkB, Ans::SplitMergeable, Ans::NotEnoughCopiesA, Ans::NotFound, Ans::Timeout, Ans::DoesNotMatchA, Ans::SplitOpaque];
+impl Ans {
+    fn succeeds(self) -> bool {
+        matches!(self, Ans::OkA | Ans::OkB | Ans::SplitMergeable)
+    }
+    fn error_name(self) -> &'static str {
+        match self {
+            Ans::NotEnoughCopiesA => "NotEnoughCopies",
+            Ans::NotFound => "RecordNotFound",
+            Ans::Timeout => "QueryTimeout",
+            Ans::DoesNotMatchA => "RecordDoesNotMatch",
+            Ans::SplitOpaque => "SplitRecord",
+            _ => "",
+        }
+    }
+}
+
+struct L4Fix {
+    key: RecordKey,
+    a: Record,
+    b: Record,
+    t1: Record,
+    t2: Record,
+}
+
+fn l4_reply(fx: &L4Fix, a: Ans) -> Result<Record, GetRecordError> {
+    let split = |x: &Record, y: &Record| {
+        let mut m = std::collections::HashMap::new();
+        for (i, r) in [x, y].iter().enumerate() {
+            let mut h = std::collections::HashSet::new();
+            h.insert(peer(i));
+            m.insert(XorName::from_content(&r.value), ((*r).clone(), h));
+        }
+        GetRecordError::SplitRecord { result_map: m }
+    };
+    match a {
+        Ans::OkA => Ok(fx.a.clone()),
+        Ans::OkB => Ok(fx.b.clone()),
+        Ans::SplitMergeable => Err(split(&fx.t1, &fx.t2)),
+        Ans::NotEnoughCopiesA => Err(GetRecordError::NotEnoughCopies { record: fx.a.clone(), expected: 2, got: 1 }),
+        Ans::NotFound => Err(GetRecordError::RecordNotFound),
+        Ans::Timeout => Err(GetRecordError::QueryTimeout),
+        Ans::DoesNotMatchA => Err(GetRecordError::RecordDoesNotMatch(fx.a.clone())),
+        Ans::SplitOpaque => Err(split(&fx.a, &fx.b)),
+    }
+}
+
+fn l4_judge(run: &Run, fx: &L4Fix, who: &str, answered: &[Ans], attempts: usize, got: &Option<Result<Record, String>>, desc: &serde_json::Value) {
+    let Some(got) = got else {
+        run.violation("every-waiting-caller-answered", "retry-loop/never-completes", format!("{who}: get_record_from_network did not end after answers {answered:?} ({desc})"), json!({"case": desc}));
+        return;
+    };
+    if answered.len() > attempts {
+        run.violation("every-waiting-caller-answered", "retry-loop/more-queries-than-attempts", format!("{who}: {} queries for a strategy of {attempts} attempts ({desc})", answered.len()), json!({"case": desc}));
+    }
+    if let Some(pos) = answered.iter().position(|a| a.succeeds()) {
+        if pos + 1 != answered.len() {
+            run.violation("every-waiting-caller-answered", "retry-loop/asked-again-after-success", format!("{who}: answers {answered:?}: another query after a successful one ({desc})"), json!({"case": desc}));
+        }
+    }
+    let last = answered.last().cloned();
+    match got {
+        Ok(r) => {
+            let fine = match last {
+                Some(Ans::OkA) => r.value == fx.a.value && r.key == fx.key,
+                Some(Ans::OkB) => r.value == fx.b.value && r.key == fx.key,
+                Some(Ans::SplitMergeable) => match try_deserialize_record::<Vec<Transaction>>(r) {
+                    Ok(ts) => {
+                        let have: BTreeSet<u8> = ts.iter().map(|t| t.content[0]).collect();
+                        have == [1u8, 2u8].into_iter().collect::<BTreeSet<u8>>() && ts.len() == 2
+                    }
+                    Err(_) => false,
+                },
+                _ => false,
+            };
+            if !fine {
+                run.violation("ok-needs-own-quorum", "retry-loop/value-not-from-a-successful-attempt", format!("{who}: answers {answered:?} but the read returned Ok({} bytes: {:?}) — not what the last attempt agreed on ({desc})", r.value.len(), String::from_utf8_lossy(&r.value[..r.value.len().min(12)])), json!({"case": desc}));
+            }
+        }
+        Err(e) => {
+            if let Some(l) = last {
+                if l.succeeds() {
+                    run.violation("every-waiting-caller-answered", "retry-loop/error-after-success", format!("{who}: answers {answered:?} (the last one a success) but the read failed with {e} ({desc})"), json!({"case": desc}));
+                } else if answered.len() < attempts {
+                    run.violation("every-waiting-caller-answered", "retry-loop/gave-up-early", format!("{who}: failed with {e} after {} of {attempts} attempts ({desc})", answered.len()), json!({"case": desc}));
+                } else if !answered.iter().any(|a| !a.error_name().is_empty() && e.contains(a.error_name())) {
+                    run.violation("every-waiting-caller-answered", "retry-loop/unspecific-error", format!("{who}: answers {answered:?} but the error is {e} ({desc})"), json!({"case": desc}));
+                }
+            }
+        }
+    }
+}
+
+fn l4_sequences(attempts: usize, menu: &[Ans]) -> Vec<Vec<Ans>> {
+    // every answer sequence the loop can consume: ends at the first success or after `attempts` failures
+    let mut out = vec![];
+    let mut stack: Vec<Vec<Ans>> = vec![vec![]];
+    while let Some(pre) = stack.pop() {
+        for a in menu {
+            let mut s = pre.clone();
+            s.push(*a);
+            if a.succeeds() || s.len() == attempts {
+                out.push(s);
+            } else {
+                stack.push(s);
+            }
+        }
+    }
+    out.sort();
+    out
+}
+
+fn run_layer4(run: &Run) {
+    use ant_protocol::storage::RetryStrategy;
+    let t = [rec::tx(5, 1, 5), rec::tx(5, 2, 5)];
+    let key = rec::tx_key(&t[0]);
+    let fx = L4Fix {
+        key: key.clone(),
+        a: rec::record(key.clone(), bytes::Bytes::from_static(b"\x91\x01\xc4\x01A")),
+        b: rec::record(key.clone(), bytes::Bytes::from_static(b"\x91\x01\xc4\x01B")),
+        t1: rec::txs_record(key.clone(), &[t[0].clone()]),
+        t2: rec::txs_record(key.clone(), &[t[1].clone()]),
+    };
+    let strategies: Vec<(&str, Option<RetryStrategy>, usize)> = vec![
+        ("None", None, 1),
+        ("N(2)", Some(RetryStrategy::N(NonZeroUsize::new(2).unwrap())), 2),
+        ("Quick", Some(RetryStrategy::Quick), 4),
+    ];
+    let mut single = 0u64;
+    let mut outcomes: BTreeSet<String> = BTreeSet::new();
+    for (sname, strat, attempts) in &strategies {
+        if strat.map(|s| s.attempts()).unwrap_or(1) != *attempts {
+            run.machinery_error("layer 4: the retry strategy's attempt count is not what the harness assumes");
+        }
+        for seq in l4_sequences(*attempts, &ANSWERS) {
+            single += 1;
+            let mut rig = crate::client_rig::ClientRig::new_paused();
+            let net = rig.network.clone();
+            let k = key.clone();
+            let st = *strat;
+            let slot = rig.start(async move {
+                let cfg = GetRecordCfg { get_quorum: Quorum::Majority, retry_strategy: st, target_record: None, expected_holders: Default::default(), is_register: false };
+                net.get_record_from_network(k, &cfg).await.map_err(|e| format!("{e:?}"))
+            });
+            let mut answered: Vec<Ans> = vec![];
+            let mut idle = 0;
+            let got = loop {
+                rig.run_until_blocked();
+                if let Some(v) = slot.lock().unwrap().take() {
+                    break Some(v);
+                }
+                if !rig.pending.is_empty() {
+                    idle = 0;
+                    // past the planned sequence the harness keeps answering with the last planned answer, so that a loop
+                    // which asks more often than it should is seen (and still ends)
+                    let a = seq.get(answered.len()).cloned().unwrap_or(Ans::NotFound);
+                    answered.push(a);
+                    let p = rig.pending.remove(0);
+                    let _ = p.reply.send(l4_reply(&fx, a));
+                    if answered.len() > attempts + 3 {
+                        break None;
+                    }
+                    continue;
+                }
+                idle += 1;
+                if idle > 12 {
+                    break None;
+                }
+                rig.exec.advance(std::time::Duration::from_secs(40));
+            };
+            let desc = json!({"layer": 4, "strategy": sname, "answers": format!("{seq:?}")});
+            run.case(format!("L4:{sname}:{seq:?}").as_bytes(), seq.len() > 1);
+            outcomes.insert(format!("{:?}", got.as_ref().map(|r| r.as_ref().map(|x| x.value.len()).map_err(|e| e.split('(').nth(1).unwrap_or("").to_string()))));
+            l4_judge(run, &fx, "caller", &answered, *attempts, &got, &desc);
+        }
+    }
+    // two overlapping callers on one key, each with its own retry loop; caller 0 asks with quorum Majority, caller 1 with One
+    let menu2 = [Ans::OkA, Ans::OkB, Ans::NotEnoughCopiesA, Ans::Timeout, Ans::SplitMergeable];
+    let seqs = l4_sequences(2, &menu2);
+    let mut pairs = 0u64;
+    for s0 in &seqs {
+        for s1 in &seqs {
+            // interleavings: at each point where both have a request pending, either is answered first — a bit string
+            for order_bits in 0u32..(1 << 3) {
+                pairs += 1;
+                let mut rig = crate::client_rig::ClientRig::new_paused();
+                let mut slots = vec![];
+                for c in 0..2usize {
+                    let net = rig.network.clone();
+                    let k = key.clone();
+                    slots.push(rig.start(async move {
+                        let q = if c == 0 { Quorum::Majority } else { Quorum::One };
+                        let cfg = GetRecordCfg { get_quorum: q, retry_strategy: Some(RetryStrategy::N(NonZeroUsize::new(2).unwrap())), target_record: None, expected_holders: Default::default(), is_register: false };
+                        net.get_record_from_network(k, &cfg).await.map_err(|e| format!("{e:?}"))
+                    }));
+                }
+                let mut answered: [Vec<Ans>; 2] = [vec![], vec![]];
+                let mut got: [Option<Result<Record, String>>; 2] = [None, None];
+                let mut idle = 0;
+                let mut choice = 0;
+                loop {
+                    rig.run_until_blocked();
+                    for c in 0..2 {
+                        if got[c].is_none() {
+                            if let Some(v) = slots[c].lock().unwrap().take() {
+                                got[c] = Some(v);
+                            }
+                        }
+                    }
+                    if got.iter().all(|g| g.is_some()) {
+                        break;
+                    }
+                    if !rig.pending.is_empty() {
+                        idle = 0;
+                        let i = if rig.pending.len() > 1 {
+                            let b = (order_bits >> choice.min(2)) & 1;
+                            choice += 1;
+                            b as usize
+                        } else {
+                            0
+                        };
+                        let p = rig.pending.remove(i);
+                        let c = if matches!(p.cfg.get_quorum, Quorum::Majority) { 0 } else { 1 };
+                        let plan = if c == 0 { s0 } else { s1 };
+                        let a = plan.get(answered[c].len()).cloned().unwrap_or(Ans::NotFound);
+                        answered[c].push(a);
+                        let _ = p.reply.send(l4_reply(&fx, a));
+                        if answered[c].len() > 6 {
+                            break;
+                        }
+                        continue;
+                    }
+                    idle += 1;
+                    if idle > 12 {
+                        break;
+                    }
+                    rig.exec.advance(std::time::Duration::from_secs(40));
+                }
+                let desc = json!({"layer": 4, "callers": 2, "answers_caller0": format!("{s0:?}"), "answers_caller1": format!("{s1:?}"), "order_bits": order_bits});
+                run.case(format!("L4x2:{s0:?}:{s1:?}:{order_bits}").as_bytes(), true);
+                for c in 0..2 {
+                    l4_judge(run, &fx, &format!("caller {c}"), &answered[c], 2, &got[c], &desc);
+                }
+            }
+        }
+    }
+    if outcomes.len() < 6 {
+        run.machinery_error(&format!("layer 4: only {} distinct outcomes — the retry loop was not exercised", outcomes.len()));
+    }
+    run.extra("layer4_single_caller_sequences", json!(single));
+    run.extra("layer4_two_caller_executions", json!(pairs));
+    run.extra("layer4_distinct_outcomes", json!(outcomes.len()));
+}
+
 fn judge_layer2(run: &Run, fname: &str, order: &[usize], pool: &[PoolItem], got: Option<Result<Record, String>>, desc: serde_json::Value) {
     let Some(got) = got else {
         run.violation("read-completes", "blocked", format!("get_record_from_network never completed: {desc}"), json!({"case": desc}));
@@ -663,7 +938,10 @@ pub fn main(tier: Option<&str>) {
          terminating events, Leave(caller); depth 6(8); peers are reduced by symmetry (one representative per answer signature + one fresh peer); \
          run once with opaque versions and once with mergeable transaction versions. layer 2: every subset (2-3) of a version pool per \
          mergeable kind x every arrival order through the real Network::get_record_from_network. layer 3: every subset (2-3(4)) of the same pools \
-         handed to get_record_from_network as a split result whose map iterates in every order.",
+         handed to get_record_from_network as a split result whose map iterates in every order. \
+         layer 4: the retry loop of get_record_from_network on a paused clock: every sequence of per-attempt answers over 8 (two agreed \
+         values, NotEnoughCopies / RecordDoesNotMatch carrying a record, RecordNotFound, QueryTimeout, a mergeable and an unmergeable \
+         split) x strategy {None, N(2), Quick}; two overlapping callers x every pair of answer sequences (5 answers, 2 attempts) x 8 answer orders.",
     );
     run.assume("kad events are synthetic (QueryStats::empty, ProgressStep counting replies); the driver's own bookkeeping (pending_get_record) is real");
     let depth = run.pick(6, 8);
@@ -674,6 +952,7 @@ pub fn main(tier: Option<&str>) {
         versions: vec![rec::record(key.clone(), bytes::Bytes::from_static(b"\x91\x01\xc4\x01A")), rec::record(key.clone(), bytes::Bytes::from_static(b"\x91\x01\xc4\x01B"))],
         cfgs: vec![(Quorum::One, None), (Quorum::N(NonZeroUsize::new(2).unwrap()), None), (Quorum::Majority, None), (Quorum::All, None), (Quorum::One, Some(0)), (Quorum::N(NonZeroUsize::new(2).unwrap()), Some(0)), (Quorum::Majority, Some(0)), (Quorum::One, Some(1)), (Quorum::N(NonZeroUsize::new(2).unwrap()), Some(1))],
         mergeable: false,
+        is_register: false,
     });
     let t = [rec::tx(5, 1, 5), rec::tx(5, 2, 5)];
     let tkey = rec::tx_key(&t[0]);
@@ -682,8 +961,28 @@ pub fn main(tier: Option<&str>) {
         versions: vec![rec::txs_record(tkey.clone(), &[t[0].clone()]), rec::txs_record(tkey.clone(), &[t[1].clone()])],
         cfgs: vec![(Quorum::One, None), (Quorum::N(NonZeroUsize::new(2).unwrap()), None), (Quorum::Majority, None)],
         mergeable: true,
+        is_register: false,
     });
-    for (menu, label) in [(opaque, "opaque-versions"), (mergeable, "transaction-versions")] {
+    // register reads with an expected value (`is_register`): the versions are three states of one register — two forks
+    // with the same number of operations and their common ancestor —, the expected value is the first fork
+    let rfx = rec::reg_fixture(5, b"c05-reg-target");
+    let rkey = rec::reg_key(&rfx.base);
+    let reg_rec = |ops: &[usize]| rec::reg_record(&rfx.with_ops(ops));
+    let registers = Arc::new(Menu {
+        key: rkey.clone(),
+        versions: vec![reg_rec(&[0, 1]), reg_rec(&[0, 2])],
+        cfgs: vec![(Quorum::One, Some(0)), (Quorum::N(NonZeroUsize::new(2).unwrap()), Some(0)), (Quorum::Majority, Some(0)), (Quorum::One, None)],
+        mergeable: false,
+        is_register: true,
+    });
+    let registers_stale = Arc::new(Menu {
+        key: rkey.clone(),
+        versions: vec![reg_rec(&[0, 1]), reg_rec(&[0])],
+        cfgs: vec![(Quorum::One, Some(0)), (Quorum::N(NonZeroUsize::new(2).unwrap()), Some(0)), (Quorum::One, Some(1))],
+        mergeable: false,
+        is_register: true,
+    });
+    for (menu, label) in [(opaque, "opaque-versions"), (mergeable, "transaction-versions"), (registers, "register-forks-with-expected-value"), (registers_stale, "register-and-ancestor-with-expected-value")] {
         let m = menu.clone();
         bfs_replay(
             &run,
@@ -693,5 +992,6 @@ pub fn main(tier: Option<&str>) {
     }
     run_layer2(&run);
     run_layer3(&run);
+    run_layer4(&run);
     run.finish();
 }
